@@ -53,11 +53,11 @@ class C06(Check):
     RULE += PRELUDE_RULE
     ASSUMPTIONS = ['predicate values are compared with != only (no hashing)']
     ANCHORS = ['rxsci/data/split.py', 'rxsci/operators/multiplex.py']
-    REQUIRED_TAGS = ['top', 'group', 'roll', 'roll_eq', 'split', 'pred=divt', 'pred=divs', 'pred=divbig', 'pred=divhuge', 'pred=divnp', 'pred=divbool', 'pred=divnone', 'pred=divnan', 'pred=divobj', 'pred=divobjt', 'pred=divtag', 'single-run', 'runs-of-1', 'empty-key'] + ['operator-object-used-in-two-pipelines'] + PRELUDE_TAGS
+    REQUIRED_TAGS = ['top', 'group', 'roll', 'roll_eq', 'split', 'pred=divt', 'pred=divs', 'pred=divbig', 'pred=divhuge', 'pred=divnp', 'pred=divbool', 'pred=divnone', 'pred=divnan', 'pred=divobj', 'pred=divobjt', 'pred=divtag', 'single-run', 'runs-of-1', 'empty-key'] + ['operator-object-used-in-two-pipelines'] + PRELUDE_TAGS + ['prelude:overlap']
     REQUIRED_OBSERVED = ['child_lifetimes_checked', 'parent_lifetimes_checked']
 
     def generate(self, rng, tier, shard, nshards):
-        return with_prelude(with_reuse(self._generate(rng, tier, shard, nshards)), rng)
+        return with_prelude(with_reuse(self._generate(rng, tier, shard, nshards)), rng, overlap=True)
 
     def _generate(self, rng, tier, shard, nshards):
         return interleave(self._box(tier, shard, nshards), self._nested(rng, tier))
